@@ -340,6 +340,9 @@ func (e *specEnv) ident(name string) specVal {
 			for _, ins := range b.Instrs {
 				if dr, ok := ins.(*ssa.DebugRef); ok && !dr.IsAddr {
 					if id, ok := dr.Expr.(*ast.Ident); ok && id.Name == name {
+						if ob := dr.Object(); ob != nil && ob.Pkg() != nil && ob.Parent() == ob.Pkg().Scope() {
+							continue
+						}
 						if _, have := e.fr.vals[dr.X]; have {
 							if found == nil {
 								found = dr.X
@@ -421,6 +424,9 @@ func (e *specEnv) ident(name string) specVal {
 			for _, ins := range b.Instrs {
 				if dr, ok := ins.(*ssa.DebugRef); ok && !dr.IsAddr {
 					if id, ok := dr.Expr.(*ast.Ident); ok && id.Name == name {
+						if ob := dr.Object(); ob != nil && ob.Pkg() != nil && ob.Parent() == ob.Pkg().Scope() {
+							continue // a package-level object, not a local variable
+						}
 						if _, have := e.fr.vals[dr.X]; !have {
 							if _, isC := dr.X.(*ssa.Const); !isC {
 								continue
@@ -792,15 +798,22 @@ func (e *specEnv) quant(q SQuant) specVal {
 	}
 	n := e.with(q.Var, bv)
 	n.guard = And(e.g(), rng)
-	// facts emitted while evaluating the body (type assumptions on loads) mention the bound variable;
-	// they must not leak as global asserts. Evaluate with a scratch script section and wrap.
+	res := v.underBinder(sym(name), sort, rng, q.Forall, q.VarType == nil, func() Term { return n.evalBool(q.Body) })
+	return specVal{V: Sc{Term{res, SBool}}, T: types.Typ[types.Bool]}
+}
+
+
+// underBinder evaluates body() with a bound SMT variable in scope and returns the quantified formula.
+// Definitions emitted during the evaluation that mention the bound variable are inlined into the body;
+// asserts that mention it are dropped (they only add assumptions). For Int binders with a range, ground
+// instances at the index terms used by the code are added (logically redundant).
+func (v *FnVC) underBinder(bsym string, sort Sort, rng Term, forall bool, instantiate bool, body func() Term) string {
 	mark := len(v.sc.lines)
-	body := n.evalBool(q.Body)
-	// collect leaked asserts/defines since mark: rewrite them as let-free by moving into the quantifier body
+	bodyT := body()
 	leaked := append([]string(nil), v.sc.lines[mark:]...)
 	var keep []string
 	var inner []string
-	innerNames := []string{sym(name)}
+	innerNames := []string{bsym}
 	for _, l := range leaked {
 		isInner := false
 		for _, n := range innerNames {
@@ -820,17 +833,14 @@ func (e *specEnv) quant(q SQuant) specVal {
 		}
 	}
 	v.sc.lines = append(v.sc.lines[:mark], keep...)
-	bodyS := body.S
-	// inline define-funs that mention the bound variable
+	bodyS := bodyT.S
 	defs := map[string]string{}
 	for _, l := range inner {
 		if strings.HasPrefix(l, "(define-fun ") {
 			rest := strings.TrimPrefix(l, "(define-fun ")
 			sp := defNameEnd(rest)
 			dn := rest[:sp]
-			// "(define-fun name () Sort body)"
 			r2 := strings.TrimPrefix(rest[sp+1:], "() ")
-			// sort may be parenthesised
 			si := sortEnd(r2)
 			defBody := strings.TrimSuffix(strings.TrimSpace(r2[si:]), ")")
 			defs[dn] = defBody
@@ -846,33 +856,31 @@ func (e *specEnv) quant(q SQuant) specVal {
 		}
 	}
 	var res string
-	if q.Forall {
-		res = fmt.Sprintf("(forall ((%s %s)) (=> %s %s))", sym(name), sort, rng.S, bodyS)
+	if forall {
+		res = fmt.Sprintf("(forall ((%s %s)) (=> %s %s))", bsym, sort, rng.S, bodyS)
 	} else {
-		res = fmt.Sprintf("(exists ((%s %s)) (and %s %s))", sym(name), sort, rng.S, bodyS)
+		res = fmt.Sprintf("(exists ((%s %s)) (and %s %s))", bsym, sort, rng.S, bodyS)
 	}
-	// ground instances at the index terms the code uses: logically redundant (forall k. P  ==  forall k. P /\ P[t],
-	// exists k. P  ==  exists k. P \/ P[t]) but they spare the solvers the arithmetic E-matching they are bad at
-	if sort == SInt && q.VarType == nil {
+	if sort == SInt && instantiate {
 		var insts []string
 		for _, t := range v.instTerms() {
-			b := replaceSym(bodyS, sym(name), t.S)
-			r := replaceSym(rng.S, sym(name), t.S)
-			if q.Forall {
+			b := replaceSym(bodyS, bsym, t.S)
+			r := replaceSym(rng.S, bsym, t.S)
+			if forall {
 				insts = append(insts, fmt.Sprintf("(=> %s %s)", r, b))
 			} else {
 				insts = append(insts, fmt.Sprintf("(and %s %s)", r, b))
 			}
 		}
 		if len(insts) > 0 {
-			if q.Forall {
+			if forall {
 				res = fmt.Sprintf("(and %s %s)", res, strings.Join(insts, " "))
 			} else {
 				res = fmt.Sprintf("(or %s %s)", res, strings.Join(insts, " "))
 			}
 		}
 	}
-	return specVal{V: Sc{Term{res, SBool}}, T: types.Typ[types.Bool]}
+	return res
 }
 
 func defNameEnd(rest string) int {
@@ -986,6 +994,19 @@ func (e *specEnv) call(c SCall) specVal {
 			cur := v.emitCount(e.st, lit.Val)
 			base := v.emitCount(e.old, lit.Val)
 			return specVal{V: Sc{Sub(cur, base)}, T: types.Typ[types.Int]}
+		case "emittedHere":
+			// emissions performed by this function's own statements (callees without contract do not count)
+			lit, ok := c.Args[0].(SLit)
+			if !ok || lit.Kind != "string" {
+				panic(specErr("emittedHere() wants a string literal"))
+			}
+			get := func(s *State) Term {
+				if t, ok := s.ghost["eh#"+lit.Val]; ok {
+					return t
+				}
+				return tZero
+			}
+			return specVal{V: Sc{Sub(get(e.st), get(e.old))}, T: types.Typ[types.Int]}
 		case "emittedArg":
 			lit, ok := c.Args[0].(SLit)
 			if !ok || lit.Kind != "string" || len(c.Args) < 3 {
@@ -1047,6 +1068,11 @@ func (e *specEnv) call(c SCall) specVal {
 			// fresh(p): p was allocated during the call (not alive in the old state)
 			a := e.eval(c.Args[0])
 			return specVal{V: Sc{Lt(e.old.allocPtr, a.V.(Sc).T)}, T: types.Typ[types.Bool]}
+		}
+		if pkg := e.pkgOfFn(); pkg != nil {
+			if sf := v.w.Contracts.SpecFuncs[shortPkg(pkg.Path())+"."+id.Name]; sf != nil {
+				return e.specFunc(sf, c.Args)
+			}
 		}
 		if sf := v.w.Contracts.SpecFuncs[id.Name]; sf != nil {
 			return e.specFunc(sf, c.Args)
